@@ -182,7 +182,8 @@ func (t *TicketID) Decode(d *Decoder) error {
 func (t *TicketAttempt) Decode(d *Decoder) error {
 	cLog(Cyan, "Decoding TicketAttempt")
 
-	val, err := d.DecodeLength()
+	// the attempt is a compact integer, not a length prefix
+	val, err := d.DecodeInteger()
 	if err != nil {
 		return err
 	}
